@@ -264,6 +264,65 @@ class Gen:
         raise KeyError(model)
 
 
+# ------------------------------------------------------------------ long, stiff Storage runs
+def _storage_case(d, **meta):
+    n = len(d['rain'])
+    params = [d['dt'], float(d['n'])] + d['levels'] + d['volumes'] + d['areas'] + d['minrel'] + d['maxrel']
+    return mkcase('Storage', params, [d['v0'], -1.0, -2.0], [d['rain'], d['pet'], d['inflow'], d['demand'], [0.0] * n, d['tmc']],
+                  style=d.get('style', ''), regime=d.get('regime', ''), long=True, **meta)
+
+
+def long_storage_cases(rng, steps):
+    """long runs of STIFF reservoirs (release strongly volume dependent, so that every daily step is refined down to
+    ~60 s sub-steps: hundreds to thousands of accepted sub-steps per step), daily steps.  What a counter, budget or
+    run-length dependent quantity carried across a whole Run call needs in order to show.
+      1. the long seasonal irrigation storage of tools/c13.py (long_cases), cut / extended to `steps`
+      2. a spillway reservoir (release 0 below full supply, steep above) under seasonal inflow with flood pulses
+      3. a randomly scaled and phase-shifted variant of 1
+    None of them can be drawn down to empty (nothing is released or evaporated at zero volume)."""
+    years = (steps + 364) // 365
+    out = []
+    base = c13.long_cases(years)[0]
+    d = dict(base)
+    for k in ('rain', 'pet', 'inflow', 'demand', 'tmc'):
+        d[k] = base[k][:steps]
+    out.append(_storage_case(d, design='c13.long_cases'))
+    # 2. spillway
+    q = rng.choice([0.5, 1.0, 2.0])
+    cap = 1e6 * q * rng.uniform(0.8, 1.25)
+    rain, pet, inflow, demand = [], [], [], []
+    phase = rng.randrange(365)
+    for t in range(steps):
+        doy = (t + phase) % 365
+        season = 0.5 * (1 + math.sin(2 * math.pi * doy / 365))
+        flood = 45.0 if (doy % 61) < 4 else 0.0
+        inflow.append(q * (15.0 + 20.0 * season + flood))
+        demand.append(q * 2.0 * (1 - season))
+        pet.append(1.0 + 4.0 * (1 - season))
+        rain.append(8.0 * season if t % 7 == 0 else 0.0)
+    out.append(_storage_case(dict(dt=86400.0, n=3, levels=[0.0, 10.0, 20.0], volumes=[0.0, cap, 2 * cap],
+                                  areas=[0.0, 1e5 * q, 2e5 * q], minrel=[0.0, 0.0, 500.0 * q], maxrel=[0.0, 5.0 * q, 600.0 * q],
+                                  v0=cap * rng.uniform(0.3, 1.0), rain=rain, pet=pet, inflow=inflow, demand=demand,
+                                  tmc=[0.0] * steps, style='spillway', regime='long-seasonal-floods'), design='spillway'))
+    # 3. scaled / shifted variant of 1
+    sc = rng.choice([0.25, 0.5, 2.0, 3.0]) * rng.uniform(0.9, 1.1)
+    ph = rng.randrange(1, 365)
+    big = c13.long_cases(years + 1)[0]
+    d = dict(base)
+    for k in ('rain', 'pet'):
+        d[k] = big[k][ph:ph + steps]
+    for k in ('inflow', 'demand'):
+        d[k] = [v * sc for v in big[k][ph:ph + steps]]
+    d['tmc'] = [0.0] * steps
+    d['volumes'] = [v * sc for v in base['volumes']]
+    d['areas'] = [v * sc for v in base['areas']]
+    d['minrel'] = [v * sc for v in base['minrel']]
+    d['maxrel'] = [v * sc for v in base['maxrel']]
+    d['v0'] = d['volumes'][2] * rng.random()
+    d['regime'] = 'long-seasonal-scaled'
+    out.append(_storage_case(d, design='c13.long_cases scaled x%.3g, phase %d' % (sc, ph)))
+    return out
+
 # ------------------------------------------------------------------ model-vs-code comparison
 def agree(cs, ri, rm):
     """None when the implementation result ri and the model result rm (parse_kresult triples) agree to the
